@@ -361,7 +361,7 @@ of are lowered as in the table (`ChainFirst -> chain_first_n(1)`, `DeferTick -> 
 `SingletonSource` with / without `first_tick_only`, `CrossSingleton`; `lowering_table_matches`). -/
 
 /-- (T) the hydro_lang library functions that build tick cycles (`Tick::cycle`, `cycle_with_initial`,
-    `create_source_with_initial` of Optional and Singleton, `filter_if`, `is_some`, `into_singleton`, `zip`/`or` inside a
+    `create_source_with_initial` of Optional and Singleton, `filter_if`, `is_some`, `into_singleton`, `or`, `unwrap_or`, `zip` inside a
     tick, `optional_first_tick`), re-extracted from the current source on every run, are the ones
     `TTerm.optCycleWithInitial` / `TTerm.singCycleWithInitial` / `TTerm.cyc` were transcribed from -/
 theorem cycle_sources_match : Gen.library = Expected.library := rfl
